@@ -305,13 +305,17 @@ func planC08(tier string, seed uint64) *Plan {
 	if tier == "thorough" {
 		n, jobs, count = 32, 4, 600
 	}
-	p.Phases = []Phase{{Name: "racing-sessions", Groups: randomPlan("ui_race", seed, uiCfgs(seed, n, nil), jobs, count, "stub")}}
+	racingGroups := randomPlan("ui_race", seed, uiCfgs(seed, n, nil), jobs, count, "stub")
+	// the same under servitor's real main(): its keyboard loop, poller and subcommand goroutine
+	racingGroups = append(racingGroups, randomPlan("ui_main_race", seed+13, uiCfgs(seed+13, n/2, nil), jobs, count/2, "stub")...)
+	p.Phases = []Phase{{Name: "racing-sessions", Groups: racingGroups}}
 	{
 		rc, rj, rn := 16, 2, 60
 		if tier == "quick" {
 			rc, rj, rn = 16, 1, 8
 		}
 		groups := randomPlan("ui_race", seed+7, uiCfgs(seed+7, rc, nil), rj, rn, "stub")
+		groups = append(groups, randomPlan("ui_main_race", seed+17, uiCfgs(seed+17, rc/4, nil), rj, rn, "stub")...)
 		for _, g := range groups {
 			for _, j := range g.Jobs {
 				j.Parallel = 6
@@ -341,6 +345,10 @@ func planC16(tier string, seed uint64) *Plan {
 	// racing pacing with a resize after every other action: a frame built for the old size must
 	// not reach the terminal after the report of the new size has returned
 	groups = append(groups, randomPlan("ui_race_sizes", seed+5, uiCfgs(seed+5, n, nil), 1, count, "stub")...)
+	// sessions that run servitor's real main(): its own poller reports the window size; the window
+	// also returns to earlier sizes and to the size the program was started in
+	groups = append(groups, randomPlan("ui_main", seed+9, uiCfgs(seed+9, n, nil), 1, count, "stub")...)
+	groups = append(groups, randomPlan("ui_main_race", seed+11, uiCfgs(seed+11, n/2, nil), 1, count/2, "stub")...)
 	p.Phases = []Phase{{Name: "frames", Groups: groups}}
 	return p
 }
